@@ -562,6 +562,8 @@ DISTINCT_COUNT_RULES = [
     ("b if True else nothing", 1, False),
     # ... also when the name hides in a nested scope (a lambda, a comprehension): its names are in a nested code object
     ("b < 1 or (lambda: nope)()", 1, False), ("b >= 0 or [nope for _ in ()]", 1, False),
+    # a result that is no truth value is refused whatever it is - also a number too long to be shown (int -> str limit)
+    ("b + 10 ** 5000", 1, False),
     # names of builtins are no fields either; called, they can end the process (SystemExit is no Exception)
     ("b < exit()", 1, False), ("b >= 0 or quit()", 1, False), ("b < len(nothing)", 1, False),
 ]
